@@ -756,4 +756,96 @@ theorem ring2_run {cfg : Cfg} (hok : cfg.Ok) (adr : Nat → Nat) : ∀ (evs : Li
         rw [hnx] at ih'
         exact ⟨by rw [hb, hii, hoi], ih'⟩
 
+/-! ## The schedule as a condition on poll times only -/
+
+theorem deliver_seen (b : Bus) (i : Nat) (now : Int) : (b.deliver i now).1.seen = b.seen.set i now := rfl
+
+theorem send_seen (b : Bus) (i : Nat) (now : Int) (bytes : Bytes) : (b.send i now bytes).seen = b.seen := rfl
+
+/-- Whatever the stations do, a poll only records its time in `seen`. -/
+theorem Net.poll_seen (n : Net) (i : Nat) (now : Int) : (n.poll i now).1.bus.seen = n.bus.seen.set i now := by
+  unfold Net.poll
+  rcases hd : n.bus.deliver i now with ⟨bus, inc⟩
+  have hs : bus.seen = n.bus.seen.set i now := by
+    have := deliver_seen n.bus i now
+    rw [hd] at this
+    exact this
+  simp only
+  cases hst : n.stations[i]? with
+  | none => exact hs
+  | some st =>
+    simp only
+    split
+    · exact hs
+    · split
+      · exact hs
+      · rename_i c _
+        cases c.tx with
+        | none => exact hs
+        | some b => exact (send_seen bus i now b).trans hs
+
+/-- The schedule conditions in terms of the last poll times alone. -/
+def SchedT (P : Nat) : List Int → Int → List (Nat × Int) → Prop
+  | _, _, [] => True
+  | seen, tl, (i, now) :: rest =>
+    i < 2 ∧ tl ≤ now ∧ seen.getD i 0 < now ∧ (∀ j, j < 2 → now ≤ seen.getD j 0 + (P : Nat)) ∧
+    SchedT P (seen.set i now) now rest
+
+theorem sched_of_times (P : Nat) : ∀ (evs : List (Nat × Int)) (n : Net) (tl : Int),
+    SchedT P n.bus.seen tl evs → Sched P n tl evs := by
+  intro evs
+  induction evs with
+  | nil => intro _ _ _; trivial
+  | cons ev rest ih =>
+    intro n tl h
+    obtain ⟨i, now⟩ := ev
+    obtain ⟨h1, h2, h3, h4, h5⟩ := h
+    exact ⟨h1, h2, h3, h4, ih _ now (by rw [Net.poll_seen]; exact h5)⟩
+
+/-- The net after a run. -/
+def Net.after (n : Net) (evs : List (Nat × Int)) : Net := evs.foldl (fun n e => (n.poll e.1 e.2).1) n
+
+/-- The invariant holds again after any scheduled run. -/
+theorem ring2_inv_run {cfg : Cfg} (hok : cfg.Ok) : ∀ (evs : List (Nat × Int)) (n : Net) (v : View),
+    RInv cfg n v → Sched cfg.P n v.tl evs → ∃ v', RInv cfg (n.after evs) v' ∧ ∀ j, j < 2 → v'.adr j = v.adr j := by
+  intro evs
+  induction evs with
+  | nil => intro n v h _; exact ⟨v, h, fun _ _ => rfl⟩
+  | cons ev rest ih =>
+    intro n v h hs
+    obtain ⟨i, now⟩ := ev
+    obtain ⟨hi, htl, hown, hgap, hrest⟩ := hs
+    have e : EvOk cfg n v i now := ⟨hi, htl, hown, hgap v.x h.x2, hgap (oth v.x) (oth_lt _)⟩
+    obtain ⟨n', v', inc, c, hp, hinv', htl', hadr', -⟩ := ring2_step h hok i now e
+    have hn' : (n.poll i now).1 = n' := by rw [hp]
+    rw [hn', ← htl'] at hrest
+    obtain ⟨v'', h1, h2⟩ := ih n' v' hinv' hrest
+    refine ⟨v'', ?_, fun j hj => (h2 j hj).trans (hadr' j hj)⟩
+    show RInv cfg (Net.after (n.poll i now).1 rest) v''
+    rw [hn']; exact h1
+
+/-- For poll gaps `P ≤ Tslot/4` the margin holds whenever `88·10⁶ + 6·rate ≤ slotBits·10⁶`. -/
+theorem Cfg.ok_of_quarter_slot (cfg : Cfg) (hr : 0 < cfg.rate) (hP : cfg.P ≤ cfg.slot / 4)
+    (hs : 88 * 1000000 + 6 * cfg.rate ≤ cfg.slotBits * 1000000) : cfg.Ok := by
+  refine ⟨hr, ?_⟩
+  have hc0 : cfg.ce 0 ≤ bitsToTime cfg.rate 11 + 1 := by
+    unfold Cfg.ce bitsToTime
+    exact Cfg.ceil_le_floor_succ _ _ hr
+  unfold Cfg.b33 Cfg.slot bitsToTime at *
+  have h1 : 33 * 1000000 / cfg.rate + 11 * 1000000 / cfg.rate ≤ 44 * 1000000 / cfg.rate := by
+    rw [Nat.le_div_iff_mul_le hr, Nat.add_mul]
+    have a := Nat.div_mul_le_self (33 * 1000000) cfg.rate
+    have b := Nat.div_mul_le_self (11 * 1000000) cfg.rate
+    omega
+  have h2 : 2 * (44 * 1000000 / cfg.rate) ≤ 88 * 1000000 / cfg.rate := by
+    rw [Nat.le_div_iff_mul_le hr]
+    have a := Nat.div_mul_le_self (44 * 1000000) cfg.rate
+    rw [Nat.mul_assoc]
+    omega
+  have h3 : 88 * 1000000 / cfg.rate + 6 ≤ cfg.slotBits * 1000000 / cfg.rate := by
+    have := Nat.div_le_div_right (c := cfg.rate) hs
+    rw [Nat.add_mul_div_right _ _ hr] at this
+    exact this
+  omega
+
 end PV
